@@ -404,6 +404,10 @@ def cmp_(op, a, b):
         return ('cmp0', op, lin(0, [(a, 1), (b, -1)]))
     if op in ('Eq', 'NotEq', 'Is', 'IsNot') and key(a) > key(b):
         a, b = b, a
+    if op in ('NotEq', 'IsNot', 'NotIn'):
+        # one canonical polarity: x != y is not (x == y), so `a if c is None else b` and `b if c is not None else a` coincide
+        pos = cmp_({'NotEq': 'Eq', 'IsNot': 'Is', 'NotIn': 'In'}[op], a, b)
+        return not_(pos)
     if op in ('Eq', 'NotEq') and constval(a) is not _NOVAL and constval(b) is not _NOVAL:
         r = constval(a) == constval(b)
         return ('const', r if op == 'Eq' else not r)
@@ -424,10 +428,8 @@ def not_(t):
         return ('const', not t[1])
     if t[0] == 'not':
         return t[1]
-    if t[0] == 'cmp':
-        inv = {'Eq': 'NotEq', 'NotEq': 'Eq', 'Is': 'IsNot', 'IsNot': 'Is', 'In': 'NotIn', 'NotIn': 'In'}
-        if t[1] in inv:
-            return ('cmp', inv[t[1]], t[2], t[3])
+    if t[0] == 'cmp' and t[1] in ('NotEq', 'IsNot', 'NotIn'):          # (not produced by cmp_, kept for safety)
+        return ('cmp', {'NotEq': 'Eq', 'IsNot': 'Is', 'NotIn': 'In'}[t[1]], t[2], t[3])
     # NaN-sensitive: not (a > b) is NOT (a <= b)
     return ('not', t)
 
